@@ -191,6 +191,103 @@ def check(seq, dedup, sort, acc, base, sample=False):
         acc.violation(sig, desc, case)
 
 
+# ----------------------------------------------------------------------------- the same agreement through the real CLI
+
+def cli_input(chains):
+    """A multi-chain PDB built from ala5.pdb: 'P' = the five residues, 'S' = its first three residues, 'Q' = residues 2-5;
+    every chain is translated so that chains do not overlap."""
+    src = [l.rstrip('\n').ljust(80) for l in open(os.path.join(common.REPO, 'vermouth', 'tests', 'data', 'ala5.pdb')) if l.startswith('ATOM')]
+    lines = []
+    serial = 1
+    for cidx, kind in enumerate(chains):
+        keep = {'P': range(1, 6), 'S': range(1, 4), 'Q': range(2, 6)}[kind]
+        for line in src:
+            if int(line[22:26]) not in keep:
+                continue
+            x, y, z = float(line[30:38]), float(line[38:46]), float(line[46:54])
+            lines.append('%s%5d %s%s%s%8.3f%8.3f%8.3f%s' % (line[:6], serial, line[12:21], 'ABCDEFG'[cidx], line[22:30],
+                                                          x, y + 30.0 * cidx, z + 10.0 * cidx, line[54:]))
+            serial += 1
+        lines.append('TER')
+    return '\n'.join(lines) + '\nEND\n'
+
+
+def check_cli(chains, extra, acc, base):
+    from mc import cli
+    case = {'layer': 'cli', 'chains': list(chains), 'options': list(extra)}
+    work = tempfile.mkdtemp(dir=base)
+    with open(os.path.join(work, 'in.pdb'), 'w') as handle:
+        handle.write(cli_input(chains))
+    res = cli.run_inprocess(['-f', 'in.pdb', '-x', 'cg.pdb', '-o', 'topol.top'] + list(extra), work)
+    if res['exit'] != 0:
+        acc.case(outcome=('cli', 'exit', res['exit']))
+        acc.violation('c03:cli-run-failed', 'martinize2 %r on chains %r exits %r\n%s' % (extra, chains, res['exit'], res['stderr'][-500:]), case)
+        shutil.rmtree(work, ignore_errors=True)
+        return
+    problems = []
+    top = readers.read_top(open(os.path.join(work, 'topol.top')).read())
+    pdb = readers.read_pdb(open(os.path.join(work, 'cg.pdb')).read())
+    names = [n for n, count in top['molecules'] for _ in range(count)]
+    incl = [i for i in top['includes'] if i != 'martini.itp']
+    itps = {}
+    for name in set(names):
+        path = os.path.join(work, '%s.itp' % name)
+        if not os.path.exists(path):
+            problems.append(('c03:itp-missing', 'no %s.itp written' % name))
+        else:
+            itps[name] = readers.read_itp(open(path).read())
+    for name in sorted(set(names)):
+        if incl.count('%s.itp' % name) != 1:
+            problems.append(('c03:include-count', '#include "%s.itp" appears %d times (%r)' % (name, incl.count('%s.itp' % name), incl)))
+            break
+    if [t for t in top['molecules'] if t[1] < 1] or any(a[0] == b[0] for a, b in zip(top['molecules'], top['molecules'][1:])):
+        problems.append(('c03:molecules-section', '[ molecules ] is not a run-length encoding: %r' % (top['molecules'],)))
+    bounds = [0] + pdb['ters']
+    merged = any(opt == '-merge' for opt in extra)
+    expected_mols = len(chains) if not merged else None
+    if expected_mols is not None and len(names) != expected_mols:
+        problems.append(('c03:molecules-section', '%d molecules listed for %d chains' % (len(names), expected_mols)))
+    if not problems:
+        if len(pdb['ters']) != len(names):
+            problems.append(('c03:ter-count', '%d TER records for %d molecules' % (len(pdb['ters']), len(names))))
+        else:
+            for midx, name in enumerate(names):
+                records = pdb['atoms'][bounds[midx]:bounds[midx + 1]]
+                atoms = itps[name]['atoms']
+                if len(records) != len(atoms):
+                    problems.append(('c03:atom-count', 'molecule %d (%s): %d coordinate records, %d ITP atoms' % (midx, name, len(records), len(atoms))))
+                    break
+                bad = [(k + 1, (r['atomname'].strip(), r['resname'].strip()), (a['atomname'], a['resname']))
+                       for k, (r, a) in enumerate(zip(records, atoms)) if (r['atomname'].strip(), r['resname'].strip()) != (a['atomname'], a['resname'])]
+                if bad:
+                    problems.append(('c03:pdb-itp-order', 'molecule %d (%s): records differ from ITP atoms: %r' % (midx, name, bad[:2])))
+                    break
+            # same name only for the same kind of chain
+            if not merged and not problems:
+                kind_of = {}
+                for name, kind in zip(names, chains):
+                    if kind_of.setdefault(name, kind) != kind:
+                        problems.append(('c03:shared-name-different-topology', 'chains of kind %s and %s share the molecule type %s' % (kind_of[name], kind, name)))
+                        break
+    acc.case(nontrivial=len(set(names)) < len(names), outcome=('cli', tuple(top['molecules'])),
+             sample=dict(case, molecules=top['molecules'], includes=incl) if acc.states % 5 == 0 else None)
+    shutil.rmtree(work, ignore_errors=True)
+    for sig, desc in problems[:1]:
+        acc.violation(sig, desc, case)
+
+
+def cli_work(task):
+    common.bind_repo()
+    acc = Acc()
+    base = tempfile.mkdtemp(prefix='verif_c03c_', dir='/dev/shm' if os.path.isdir('/dev/shm') else None)
+    try:
+        for chains, extra in task:
+            check_cli(chains, extra, acc, base)
+    finally:
+        shutil.rmtree(base, ignore_errors=True)
+    return acc
+
+
 def work(task):
     common.bind_repo()
     acc = Acc()
@@ -216,6 +313,16 @@ def run(ctx):
     for part in common.pmap(work, list(common.chunked(cases, max(1, len(cases) // 64)))):
         acc += part
     ctx.layer('written-files-agree', acc)
+    # every sequence of <= 3 chains over three kinds through the real program, with and without -sep / -merge
+    cli_cases = []
+    for m in (1, 2, 3):
+        for chains in itertools.product('PSQ', repeat=m):
+            for extra in [[], ['-sep']] + ([['-merge', 'A,B']] if m >= 2 else []):
+                cli_cases.append((chains, extra))
+    acc = Acc()
+    for part in common.pmap(cli_work, list(common.chunked(cli_cases, max(1, len(cli_cases) // 16)))):
+        acc += part
+    ctx.layer('cli', acc)
 
 
 def replay(case):
@@ -223,6 +330,9 @@ def replay(case):
     acc = Acc()
     base = tempfile.mkdtemp(prefix='verif_c03r_')
     try:
+        if case.get('layer') == 'cli':
+            check_cli(tuple(case['chains']), list(case['options']), acc, base)
+            return [(s, d) for s, d, _ in acc.violations]
         check(tuple(case['shapes']), case['deduplicate'], case['sort'], acc, base)
     finally:
         shutil.rmtree(base, ignore_errors=True)
